@@ -145,6 +145,22 @@ var validIn = map[string]bool{"va": true, "vb": true, "vd": true, "vl": true, "v
 
 // s0 has single-property input and signal data objects (shape chosen per session).  StepsMC: ShortSteps.
 var shortSteps = map[string]bool{"s0": true}
+
+// behT: a handler behaviour is a pair (output ID class, data class) - Steps.tla: BehTab
+type behT struct{ id, data string }
+
+var behTab = map[string]behT{
+	"ok": {"declared", "conf"}, "okr": {"declared", "confr"}, "baddata": {"declared", "nonconf"}, "nildata": {"declared", "nil"},
+	"ok2": {"declared2", "conf"}, "ok2r": {"declared2", "confr"}, "baddata2": {"declared2", "nonconf"}, "nildata2": {"declared2", "nil"},
+	"undeclared": {"undeclared", "conf"}, "undeclaredr": {"undeclared", "confr"},
+	"undeclaredbad": {"undeclared", "nonconf"}, "undeclarednil": {"undeclared", "nil"},
+}
+var allBehs = []string{"ok", "okr", "baddata", "nildata", "ok2", "ok2r", "baddata2", "nildata2",
+	"undeclared", "undeclaredr", "undeclaredbad", "undeclarednil"}
+
+// the concrete output IDs of class "undeclared"
+var undeclaredIDs = []struct{ name, id string }{{"unknown-id", "nope"}, {"miscased-id", "Success"}, {"empty-id", ""}}
+
 var structClasses = []string{"va", "vb"}
 var mapClasses = []string{"va", "vb", "vd", "vl"}
 
@@ -206,6 +222,13 @@ func rawInput(field, class string, variant int) any {
 		return map[any]any{field: names[class]} // what CBOR hands over
 	default:
 		switch variant % nStructInv {
+		case 7:
+			return msa(nil) // a typed nil map: a map without the required field
+		case 8:
+			if field == "msg" {
+				return (*sigIn)(nil)
+			}
+			return (*stepIn)(nil) // a typed nil pointer: not a map
 		case 6:
 			// a value that already has the reflected type of the scope: the schema's Unserialize takes
 			// maps only ("Must be a map to convert to object")
@@ -229,7 +252,7 @@ func rawInput(field, class string, variant int) any {
 	}
 }
 
-const nStructInv = 7
+const nStructInv = 9
 
 // ---------------------------------------------------------------------------- map-based scopes
 
@@ -335,7 +358,6 @@ var outForms = map[string][]outForm{
 	"baddata": {
 		{"too-short", func(f, m string) any { return msa{f: ""} }, nil},
 		{"int-below-minimum", func(f, m string) any { return msa{f: m, "count": -1} }, nil},
-		{"nil", func(f, m string) any { return nil }, nil},
 		{"struct-where-map-declared", func(f, m string) any { return stepOut{Message: m} }, nil},
 		{"undeclared-key", func(f, m string) any { return msa{f: m, "bogus": 1} }, nil},
 		{"required-missing", func(f, m string) any { return msa{"count": int64(1)} }, nil},
@@ -343,6 +365,14 @@ var outForms = map[string][]outForm{
 		{"not-a-list", func(f, m string) any { return msa{f: m, "labels": "a,b"} }, nil},
 		{"pattern-as-text", func(f, m string) any { return msa{f: m, "filter": "^a+$"} }, nil},
 		{"sub-object-incomplete", func(f, m string) any { return msa{f: m, "summary": msa{"lines": int64(1)}} }, nil},
+		{"scalar", func(f, m string) any { return 42 }, nil},
+	},
+	// nil data, untyped and typed
+	"nildata": {
+		{"nil", func(f, m string) any { return nil }, nil},
+		{"nil-struct-pointer", func(f, m string) any { return (*summaryT)(nil) }, nil},
+		{"nil-map-pointer", func(f, m string) any { return (*msa)(nil) }, nil},
+		{"nil-map", func(f, m string) any { return msa(nil) }, nil},
 		// nil data under the declared ID whose object has optional properties only (outFormID): an empty
 		// map would conform, nil - of any kind that is not a map - does not
 		{"nil-for-all-optional-output", func(f, m string) any { return nil }, nil},
@@ -358,32 +388,47 @@ var outFormID = map[string]string{
 	"nil-map-pointer-for-all-optional-output":    "info",
 }
 
+// outFormsOf: the data forms of a behaviour's data class; the forms bound to another output ID (outFormID)
+// only where the behaviour's own ID is the first declared one
 func outFormsOf(beh string) []outForm {
-	switch beh {
-	case "ok2": // the second output: normal and non-normal forms alike
-		return append(append([]outForm{}, outForms["ok"]...), outForms["okr"]...)
-	case "ok", "okr", "baddata":
-		return outForms[beh]
+	b := behTab[beh]
+	all := outForms[map[string]string{"conf": "ok", "confr": "okr", "nonconf": "baddata", "nil": "nildata"}[b.data]]
+	if b.id == "declared" {
+		return all
 	}
-	return outForms["ok"][:1] // undeclared
+	var fs []outForm
+	for _, f := range all {
+		if _, other := outFormID[f.name]; !other {
+			fs = append(fs, f)
+		}
+	}
+	return fs
+}
+
+func nOutForms(beh string) int {
+	if behTab[beh].id == "undeclared" {
+		return len(undeclaredIDs) * len(outFormsOf(beh))
+	}
+	return len(outFormsOf(beh))
 }
 
 // handlerOutputMap is what the handlers of the map-based step return (a fresh value every time).
 func handlerOutputMap(beh, name string, variant int) (id string, data any, form string) {
-	if variant < 0 {
-		variant = -variant
-	}
+	variant = abs(variant)
+	b := behTab[beh]
 	fs := outFormsOf(beh)
+	if b.id == "undeclared" {
+		u := undeclaredIDs[variant%len(undeclaredIDs)]
+		f := fs[(variant/len(undeclaredIDs))%len(fs)]
+		return u.id, f.val("message", "hi "+name), "mapout/step/" + beh + "/" + u.name + ":" + f.name
+	}
 	f := fs[variant%len(fs)]
 	form = "mapout/step/" + beh + "/" + f.name
 	if id, ok := outFormID[f.name]; ok {
 		return id, f.val("message", "hi "+name), form
 	}
-	switch beh {
-	case "ok2":
+	if b.id == "declared2" {
 		return "error", f.val("error", "no "+name), form
-	case "undeclared":
-		return "nope", f.val("message", "hi "+name), form
 	}
 	return "success", f.val("message", "hi "+name), form
 }
@@ -513,6 +558,9 @@ var mapForms = map[string][]mapForm{
 		{"required-missing", func(f, n string) any { return msa{"note": "no required field"} }, nil},
 		{"undeclared-key", func(f, n string) any { return msa{f: "alpha", "bogus": "undeclared"} }, nil},
 		{"nil", func(f, n string) any { return nil }, nil},
+		{"nil-map", func(f, n string) any { return msa(nil) }, nil},
+		{"nil-anymap", func(f, n string) any { return maa(nil) }, nil},
+		{"nil-map-pointer", func(f, n string) any { return (*msa)(nil) }, nil},
 		{"not-a-map", func(f, n string) any { return 42 }, nil},
 		{"nil-required", func(f, n string) any { return maa{f: nil} }, nil},
 		{"int-out-of-range", func(f, n string) any { return msa{f: "alpha", "count": int64(11)} }, nil},
@@ -596,7 +644,13 @@ func reqProp(t schema.Type) *schema.PropertySchema {
 	return schema.NewPropertySchema(t, nil, true, nil, nil, nil, nil, nil)
 }
 
-var shortShapes = []string{"struct-string", "map-int", "struct-nested", "map-nested"}
+// the last two have an OPTIONAL single property with a declared default: the empty map (and a typed nil map)
+// is accepted and unserializes to the default, nil itself is not a map and not a value of the property either
+var shortShapes = []string{"struct-string", "map-int", "struct-nested", "map-nested", "struct-optional", "map-optional"}
+
+type optT struct {
+	Count int64 `json:"count"`
+}
 
 // shortScope builds a fresh scope whose root object has exactly one property.
 func shortScope(shape, id string) *schema.ScopeSchema {
@@ -609,6 +663,12 @@ func shortScope(shape, id string) *schema.ScopeSchema {
 			map[string]*schema.PropertySchema{"name": strProp(2, true)}))
 	case "map-int":
 		return schema.NewScopeSchema(schema.NewObjectSchema(id, count()))
+	case "struct-optional":
+		return schema.NewScopeSchema(schema.NewStructMappedObjectSchema[optT](id, map[string]*schema.PropertySchema{
+			"count": optProp(schema.NewIntSchema(schema.IntPointer(0), nil, nil), schema.PointerTo("3"))}))
+	case "map-optional":
+		return schema.NewScopeSchema(schema.NewObjectSchema(id, map[string]*schema.PropertySchema{
+			"count": optProp(schema.NewIntSchema(schema.IntPointer(0), nil, nil), schema.PointerTo("3"))}))
 	case "struct-nested":
 		return schema.NewScopeSchema(schema.NewStructMappedObjectSchema[outerT](id, map[string]*schema.PropertySchema{
 			"inner": reqProp(schema.NewStructMappedObjectSchema[innerT](id+"inner", count()))}))
@@ -648,6 +708,12 @@ var shortForms = map[string][]shortForm{
 		{"struct-nested", "map-inner-shorthand", func(n string) any { return msa{"inner": 6} }, func(n string) any { return nestS(6) }},
 		{"map-nested", "map", func(n string) any { return msa{"inner": msa{"count": int64(5)}} }, func(n string) any { return nestM(5) }},
 		{"map-nested", "anymap", func(n string) any { return maa{"inner": maa{"count": uint64(7)}} }, func(n string) any { return nestM(7) }},
+		{"struct-optional", "map", func(n string) any { return msa{"count": int64(4)} }, func(n string) any { return optT{Count: 4} }},
+		{"struct-optional", "map-empty-default", func(n string) any { return msa{} }, func(n string) any { return optT{Count: 3} }},
+		{"struct-optional", "nil-map-default", func(n string) any { return msa(nil) }, func(n string) any { return optT{Count: 3} }},
+		{"map-optional", "map", func(n string) any { return msa{"count": int64(4)} }, func(n string) any { return msa{"count": int64(4)} }},
+		{"map-optional", "map-empty-default", func(n string) any { return msa{} }, func(n string) any { return msa{"count": int64(3)} }},
+		{"map-optional", "nil-anymap-default", func(n string) any { return maa(nil) }, func(n string) any { return msa{"count": int64(3)} }},
 	},
 	// the shorthand: a bare value that is not a map
 	"vs": {
@@ -660,6 +726,8 @@ var shortForms = map[string][]shortForm{
 		{"struct-nested", "bare-uint64", func(n string) any { return uint64(9) }, func(n string) any { return nestS(9) }},
 		{"map-nested", "bare-int", func(n string) any { return 5 }, func(n string) any { return nestM(5) }},
 		{"map-nested", "bare-numeral", func(n string) any { return "8" }, func(n string) any { return nestM(8) }},
+		{"struct-optional", "bare-int", func(n string) any { return 5 }, func(n string) any { return optT{Count: 5} }},
+		{"map-optional", "bare-numeral", func(n string) any { return "6" }, func(n string) any { return msa{"count": int64(6)} }},
 	},
 	// rejected: maps and bare values alike
 	"inv": {
@@ -684,6 +752,23 @@ var shortForms = map[string][]shortForm{
 		{"map-nested", "bare-nil", func(n string) any { return nil }, nil},
 		{"map-nested", "inner-spelling-at-outer-level", func(n string) any { return msa{"count": int64(6)} }, nil},
 		{"map-nested", "map-inner-not-a-number", func(n string) any { return msa{"inner": msa{"count": "x"}} }, nil},
+		// nil and typed nils, for every shape
+		{"struct-string", "nil-map", func(n string) any { return msa(nil) }, nil},
+		{"struct-string", "nil-struct-pointer", func(n string) any { return (*shortStr)(nil) }, nil},
+		{"map-int", "nil-map", func(n string) any { return msa(nil) }, nil},
+		{"map-int", "nil-map-pointer", func(n string) any { return (*msa)(nil) }, nil},
+		{"struct-nested", "bare-nil", func(n string) any { return nil }, nil},
+		{"struct-nested", "nil-anymap", func(n string) any { return maa(nil) }, nil},
+		{"map-nested", "nil-map", func(n string) any { return msa(nil) }, nil},
+		// the optional shapes: no property is required, the empty map is accepted - nil is not
+		{"struct-optional", "bare-nil", func(n string) any { return nil }, nil},
+		{"struct-optional", "nil-struct-pointer", func(n string) any { return (*optT)(nil) }, nil},
+		{"struct-optional", "bare-below-minimum", func(n string) any { return -1 }, nil},
+		{"struct-optional", "map-undeclared-key", func(n string) any { return msa{"bogus": 1} }, nil},
+		{"map-optional", "bare-nil", func(n string) any { return nil }, nil},
+		{"map-optional", "nil-map-pointer", func(n string) any { return (*msa)(nil) }, nil},
+		{"map-optional", "bare-not-a-number", func(n string) any { return "x" }, nil},
+		{"map-optional", "map-below-minimum", func(n string) any { return msa{"count": -2} }, nil},
 	},
 }
 
@@ -803,8 +888,11 @@ func formTables() map[string]int {
 	for _, c := range append(append([]string{}, mapClasses...), "inv") {
 		t["map/"+c] = len(formsOf(c))
 	}
-	for _, b := range []string{"ok", "ok2", "okr", "undeclared", "baddata"} {
-		t["mapout/"+b] = len(outFormsOf(b))
+	for _, b := range allBehs {
+		t["mapout/"+b] = nOutForms(b)
+		if behTab[b].data != "confr" {
+			t["structout/"+b] = nStructOutForms(b)
+		}
 	}
 	for _, c := range []string{"va", "vb", "vs", "inv"} {
 		t["short/"+c] = len(shortForms[shortClass(c)])
@@ -825,27 +913,80 @@ func nativeClass(name, note string) string {
 	return "other"
 }
 
-// handler output per behaviour; variant selects among several non-conforming data
-func handlerOutput(beh, name string, variant int) (string, any) {
-	switch beh {
-	case "ok":
-		return "success", stepOut{Message: "hi " + name}
-	case "ok2":
-		return "error", stepErr{Error: "no " + name}
-	case "undeclared":
-		return "nope", stepOut{Message: "hi " + name}
-	default: // baddata
-		switch variant % 4 {
-		case 0:
-			return "success", stepOut{Message: ""} // violates the minimum length
-		case 1:
-			return "success", stepErr{Error: "wrong type for this output"}
-		case 2:
-			return "success", nil
-		default:
-			return "success", map[string]any{"message": "a map where the struct is declared"}
-		}
+// sOutForm is one concrete value a handler of a step with struct-mapped outputs returns; second = the
+// value is meant for the second declared output ("error", stepErr) rather than the first (stepOut)
+type sOutForm struct {
+	name string
+	val  func(second bool, name string) any
+}
+
+var structOutForms = map[string][]sOutForm{
+	"conf": {
+		{"struct", func(second bool, n string) any {
+			if second {
+				return stepErr{Error: "no " + n}
+			}
+			return stepOut{Message: "hi " + n}
+		}},
+	},
+	"nonconf": {
+		{"too-short", func(second bool, n string) any { // violates the minimum length
+			if second {
+				return stepErr{Error: ""}
+			}
+			return stepOut{Message: ""}
+		}},
+		{"other-struct", func(second bool, n string) any {
+			if second {
+				return stepOut{Message: "wrong type for this output"}
+			}
+			return stepErr{Error: "wrong type for this output"}
+		}},
+		{"map-where-struct-declared", func(second bool, n string) any {
+			return map[string]any{"message": "a map where the struct is declared", "error": "x"}
+		}},
+		{"scalar", func(second bool, n string) any { return 42 }},
+	},
+	"nil": {
+		{"nil", func(second bool, n string) any { return nil }},
+		{"nil-struct-pointer", func(second bool, n string) any {
+			if second {
+				return (*stepErr)(nil)
+			}
+			return (*stepOut)(nil)
+		}},
+		{"nil-map", func(second bool, n string) any { return msa(nil) }},
+	},
+}
+
+func nStructOutForms(beh string) int {
+	b := behTab[beh]
+	n := len(structOutForms[b.data])
+	if b.id == "undeclared" {
+		n *= len(undeclaredIDs)
 	}
+	return n
+}
+
+// handlerOutput: what the handlers of the steps with struct-mapped outputs return (a fresh value every time)
+func handlerOutput(beh, name string, variant int) (id string, data any, form string) {
+	variant = abs(variant)
+	b := behTab[beh]
+	fs := structOutForms[b.data]
+	if len(fs) == 0 { // confr is bound for map-based outputs only
+		fs = structOutForms["conf"]
+	}
+	if b.id == "undeclared" {
+		u := undeclaredIDs[variant%len(undeclaredIDs)]
+		f := fs[(variant/len(undeclaredIDs))%len(fs)]
+		return u.id, f.val(false, name), "structout/step/" + beh + "/" + u.name + ":" + f.name
+	}
+	f := fs[variant%len(fs)]
+	form = "structout/step/" + beh + "/" + f.name
+	if b.id == "declared2" {
+		return "error", f.val(true, name), form
+	}
+	return "success", f.val(false, name), form
 }
 
 func serClass(beh string, data any) string {
@@ -862,7 +1003,7 @@ func serClass(beh string, data any) string {
 	}
 	for cls, n := range names {
 		var want map[string]any
-		if beh == "ok2" {
+		if behTab[beh].id == "declared2" {
 			want = map[string]any{"error": "no " + n}
 		} else {
 			want = map[string]any{"message": "hi " + n}
@@ -888,6 +1029,7 @@ type event struct {
 	// not part of the trace
 	etype    string
 	chain    string // types along the Unwrap chain of the returned error
+	idOnErr  string // the output ID returned together with an error
 	untyped  bool
 	errText  string
 	panicM   string
@@ -996,6 +1138,8 @@ func (s *session) buildStep(id string) schema.CallableStep {
 			return buildShort[shortStr](s, id)
 		case "struct-nested":
 			return buildShort[outerT](s, id)
+		case "struct-optional":
+			return buildShort[optT](s, id)
 		default:
 			return buildShort[map[string]any](s, id)
 		}
@@ -1119,7 +1263,9 @@ func (s *session) stepHandler(ctx context.Context, step string, d any, in stepIn
 	s.arrive(p, &event{Ev: "invoke", P: p.id, Kind: "step", Arg: nativeClass(in.Name, in.Note), Data: creator(d),
 		dataPtr: asData(d), key: step + "/" + p.call.Run, hstep: step})
 	s.record(&event{Ev: "hret", P: p.id})
-	return handlerOutput(p.call.Beh, in.Name, p.variant)
+	outID, data, form := handlerOutput(p.call.Beh, in.Name, p.variant)
+	p.oform = form
+	return outID, data
 }
 
 func (s *session) signalHandler(ctx context.Context, step string, d any, in sigIn) {
@@ -1176,7 +1322,9 @@ func (s *session) shortHandler(ctx context.Context, kind, step string, d any, in
 	if kind == "signal" {
 		return "", nil
 	}
-	return handlerOutput(p.call.Beh, names[p.call.Input], p.variant)
+	outID, data, form := handlerOutput(p.call.Beh, names[p.call.Input], p.variant)
+	p.oform = form
+	return outID, data
 }
 
 // rawFor concretises p's raw input (a fresh value on every call) and names the concrete form.
@@ -1209,6 +1357,9 @@ func rawFor(p *proc) (raw any, form string) {
 	}
 	return rawInput(field, p.call.Input, v), fmt.Sprintf("struct/%s/inv/%d", p.call.Kind, v%nStructInv)
 }
+
+// error types of the SDK that are used for failures of every kind and so cannot identify one
+var genericErr = map[string]bool{"ConstraintError": true}
 
 var sdkErrNames = map[string]string{
 	"BadArgumentError": "badarg", "NoSuchStepError": "nosuchstep",
@@ -1301,6 +1452,7 @@ func (s *session) runCall(p *proc) {
 		ev.Class, ev.etype, ev.untyped = classify(err)
 		if err != nil {
 			ev.chain = errChain(err)
+			ev.idOnErr = outID
 			ev.errText = err.Error()
 		} else if p.call.Kind == "step" {
 			ev.Out = outID
@@ -1336,9 +1488,9 @@ func situation(c callT) string {
 		return "rejected_input"
 	case c.Kind == "signal":
 		return "ok"
-	case c.Beh == "undeclared":
+	case behTab[c.Beh].id == "undeclared":
 		return "undeclared_output"
-	case c.Beh == "baddata":
+	case behTab[c.Beh].data == "nonconf" || behTab[c.Beh].data == "nil":
 		return "bad_data"
 	}
 	return "ok"
@@ -1499,6 +1651,10 @@ func judge(s *session, r *resT) int {
 		od := map[string]any{"returned": ret.Class, "type": ret.etype, "err": ret.errText, "out": ret.Out, "ser": ret.Ser}
 		if ret.chain != "" {
 			od["error_chain"] = ret.chain
+			od["id_returned_with_the_error"] = ret.idOnErr
+		}
+		if p.oform != "" {
+			od["output_form"] = p.oform
 		}
 		want := specClass(c, sit)
 		switch sit {
@@ -1507,7 +1663,7 @@ func judge(s *session, r *resT) int {
 				r.miss(!isStep, c, "error_on_valid", nil, det(p, od))
 			} else if isStep {
 				wantOut := "success"
-				if c.Beh == "ok2" {
+				if behTab[c.Beh].id == "declared2" {
 					wantOut = "error"
 				}
 				if ret.Out != wantOut || ret.Ser != natives[c.Input] {
@@ -1550,6 +1706,10 @@ func judge(s *session, r *resT) int {
 				}
 			case ret.Class == "error" && ret.untyped:
 				r.miss(false, c, "untyped_error", nil, det(p, od))
+			case ret.Class == "error" && genericErr[ret.etype]:
+				// the type the SDK returns for any violated constraint (non-conforming output data included):
+				// it does not tell this failure from the others
+				r.miss(false, c, "wrong_error_type", map[string]any{"got": ret.etype}, det(p, od))
 			case ret.Class == "error":
 				r.miss(true, c, "error_type", nil, det(p, od)) // a new dedicated type: model detail
 			default:
@@ -1630,8 +1790,12 @@ func runReplay(c caseT, r *resT) {
 			r.BindError = "input class vs is bound for single-property scopes only; call on step " + cl.Step
 			return
 		}
-		if cl.Beh == "okr" && !mapSteps[cl.Step] {
-			r.BindError = "behaviour okr is bound for map-based output scopes only; call on step " + cl.Step
+		if _, known := behTab[cl.Beh]; cl.Kind == "step" && !known {
+			r.BindError = "behaviour " + cl.Beh + " is not in the harness's table"
+			return
+		}
+		if behTab[cl.Beh].data == "confr" && !mapSteps[cl.Step] && cl.Step != noStep {
+			r.BindError = "behaviour " + cl.Beh + " is bound for map-based output scopes only; call on step " + cl.Step
 			return
 		}
 		if (cl.Input == "vd" || cl.Input == "vl") && !mapSteps[cl.Step] {
@@ -1896,7 +2060,8 @@ func randomCall(rng *rand.Rand, runs int) callT {
 	}
 	if rng.Intn(100) < 45 {
 		c.Kind = "step"
-		c.Beh = []string{"ok", "ok", "ok", "ok2", "undeclared", "baddata"}[rng.Intn(6)]
+		c.Beh = []string{"ok", "ok", "ok", "ok", "ok2", "undeclared", "baddata", "nildata", "baddata2", "nildata2",
+			"undeclaredbad", "undeclarednil"}[rng.Intn(12)]
 	} else {
 		c.Kind = "signal"
 		c.Sig = sigID
@@ -1937,8 +2102,8 @@ func runRandom(c caseT, r *resT) {
 			if calls[i].Input == "vs" && !shortSteps[calls[i].Step] {
 				calls[i].Input = "va"
 			}
-			if calls[i].Kind == "step" && mapSteps[calls[i].Step] && calls[i].Beh == "ok" && rng.Intn(2) == 0 {
-				calls[i].Beh = "okr"
+			if b := calls[i].Beh; calls[i].Kind == "step" && mapSteps[calls[i].Step] && behTab[b].data == "conf" && rng.Intn(2) == 0 {
+				calls[i].Beh = b + "r" // the same output ID class with data class confr
 			}
 		}
 		s := newSession(calls, false, c.Seed*100003+int64(k), rng.Intn(1<<16), nil)
@@ -2075,25 +2240,55 @@ func bindCheck() {
 		if _, err := sg.Unserialize(rawInput("msg", "inv", v)); err == nil {
 			bindErr = fmt.Sprintf("signal input class inv variant %d is accepted by the data schema", v)
 		}
-		for _, beh := range []string{"ok", "ok2", "baddata", "undeclared"} {
-			id, data := handlerOutput(beh, "alpha", v)
-			o, declared := outs[id]
-			switch beh {
-			case "undeclared":
-				if declared {
-					bindErr = "output id of behaviour undeclared is declared"
-				}
-			case "baddata":
-				if !declared || o.Validate(data) == nil {
-					bindErr = fmt.Sprintf("behaviour baddata variant %d conforms to the output schema", v)
-				}
-			default:
-				if !declared || o.Validate(data) != nil {
-					bindErr = fmt.Sprintf("behaviour %s does not conform to the output schema", beh)
-				} else if ser, err := o.Schema().Serialize(data); err != nil || serClass(beh, ser) != "nva" {
-					bindErr = fmt.Sprintf("behaviour %s: serialized output not recognised: %v %v", beh, ser, err)
-				}
-			}
+	}
+	for _, beh := range allBehs {
+		if behTab[beh].data == "confr" {
+			continue
+		}
+		for v := 0; v < nStructOutForms(beh); v++ {
+			id, data, form := handlerOutput(beh, "alpha", v)
+			checkOutForm(outs, beh, id, data, form, func(ser any) string { return serClass(beh, ser) })
+		}
+	}
+}
+
+// checkOutForm: one concrete handler return value must mean what its behaviour's (ID class, data class)
+// says, judged by the declared output schemas alone
+func checkOutForm(outs map[string]*schema.StepOutputSchema, beh, id string, data any, form string, class func(ser any) string) {
+	b := behTab[beh]
+	o, declared := outs[id]
+	if declared != (b.id != "undeclared") || (b.id == "declared" && id == "error") || (b.id == "declared2" && id != "error") {
+		bindErr = fmt.Sprintf("%s: output ID %q does not belong to ID class %s", form, id, b.id)
+		return
+	}
+	if !declared {
+		o = outs["success"] // the data class of an undeclared ID's data is judged by the first declared output
+	}
+	var verr error
+	if pi := sup.Guard(func() { verr = o.Validate(data) }); pi != nil {
+		bindErr = fmt.Sprintf("%s: Validate panics: %s at %s", form, pi.Msg, pi.Frame)
+		return
+	}
+	isNil := data == nil
+	if !isNil {
+		switch rv := reflect.ValueOf(data); rv.Kind() {
+		case reflect.Pointer, reflect.Map, reflect.Slice:
+			isNil = rv.IsNil()
+		}
+	}
+	switch b.data {
+	case "nonconf", "nil":
+		if verr == nil {
+			bindErr = form + " conforms to the output schema"
+		}
+		if isNil != (b.data == "nil") {
+			bindErr = form + ": nil and non-nil data are mixed up"
+		}
+	default:
+		if verr != nil {
+			bindErr = fmt.Sprintf("%s does not conform to the output schema: %v", form, verr)
+		} else if ser, err := o.Schema().Serialize(data); err != nil || (declared && class(ser) != "nva") {
+			bindErr = fmt.Sprintf("%s: serialized output not recognised: %v %v", form, ser, err)
 		}
 	}
 }
@@ -2155,40 +2350,30 @@ func bindCheckMap() {
 			}
 		}
 	}
-	for _, beh := range []string{"ok", "ok2", "okr", "undeclared", "baddata"} {
-		for i := range outFormsOf(beh) {
-			f := outFormsOf(beh)[i]
-			where := fmt.Sprintf("map-based output, behaviour %s form %d (%s)", beh, i, f.name)
-			id, val, _ := handlerOutputMap(beh, "alpha", i)
-			out, declared := mapOutputs()[id]
-			if beh == "undeclared" {
-				if declared {
-					bindErr = where + ": the output ID is declared"
-				}
+	for _, beh := range allBehs {
+		b := behTab[beh]
+		for i := 0; i < nOutForms(beh); i++ {
+			id, val, where := handlerOutputMap(beh, "alpha", i)
+			c := callT{Kind: "step", Step: "s2", Input: "va", Beh: beh}
+			checkOutForm(mapOutputs(), beh, id, val, where, func(ser any) string {
+				got, _ := serClassMap(c, i, id, ser)
+				return got
+			})
+			if b.id == "undeclared" || (b.data != "conf" && b.data != "confr") {
 				continue
 			}
-			if !declared {
-				bindErr = where + ": the output ID is not declared"
-				continue
-			}
-			verr := out.Validate(val)
-			if beh == "baddata" {
-				if verr == nil {
-					bindErr = where + " conforms to the output schema"
-				}
-				continue
-			}
+			// conforming data under a declared ID: the table's hand-written serialized form
+			f := outFormsOf(beh)[i%len(outFormsOf(beh))]
 			field, msg := "message", "hi alpha"
-			if beh == "ok2" {
+			if b.id == "declared2" {
 				field, msg = "error", "no alpha"
 			}
-			ser, err := out.Schema().Serialize(val)
+			ser, err := mapOutputs()[id].Schema().Serialize(val)
 			want := f.ser(field, msg)
-			if verr != nil || err != nil || !reflect.DeepEqual(ser, any(want)) {
-				bindErr = fmt.Sprintf("%s: Validate %v, Serialize gives %s, %v; the table's serialized form is %s", where, verr, describe(ser), err, describe(want))
+			if err != nil || !reflect.DeepEqual(ser, any(want)) {
+				bindErr = fmt.Sprintf("%s: Serialize gives %s, %v; the table's serialized form is %s", where, describe(ser), err, describe(want))
 				continue
 			}
-			c := callT{Kind: "step", Step: "s2", Input: "va", Beh: beh}
 			if got, _ := serClassMap(c, i, id, any(want)); got != "nva" {
 				bindErr = where + ": the reference does not recognise the serialized form"
 			}
@@ -2198,10 +2383,10 @@ func bindCheckMap() {
 			if normal != (got == "nva") {
 				bindErr = where + ": the reference's verdict on the handler's own value is inconsistent"
 			}
-			if beh == "ok" && !normal {
+			if b.data == "conf" && !normal {
 				bindErr = where + ": the in-memory form is not the serialized form"
 			}
-			if beh == "okr" && normal {
+			if b.data == "confr" && normal {
 				bindErr = where + ": the in-memory form equals the serialized form"
 			}
 		}
